@@ -4,6 +4,7 @@ import (
 	"fmt"
 	"go/token"
 	"go/types"
+	"sort"
 	"strings"
 
 	"golang.org/x/tools/go/ssa"
@@ -428,10 +429,229 @@ func coupledAt(p *core.Program, fn *ssa.Function, seg, node ssa.Value, depth int
 			}
 		}
 	}
+	// both are fields of one struct parameter (the segment and the child bundled into a small value): the pairing is
+	// checked where the struct is filled in, at every static call site
+	if depth < 3 {
+		for _, sf := range fieldsOfParamIn(seg, isPathSegment) {
+			for _, nf := range fieldsOfParamIn(node, isNodeType) {
+				if sf.prm != nf.prm {
+					continue
+				}
+				ok, why := coupledFields(p, sf.prm.Parent(), core.ParamIndex(sf.prm), sf.idx, nf.idx, depth)
+				if ok {
+					return true, why
+				}
+				if firstFail == "" {
+					firstFail = why
+				}
+			}
+		}
+	}
 	if firstFail != "" {
 		return false, firstFail
 	}
 	return false, "segment and child node do not originate together"
+}
+
+// coupledFields: at every static call site of callee, fields si (segment) and ni (child) of the struct passed for
+// parameter pi were filled with values that originate together - or the struct is the caller's own parameter, handed
+// on unchanged, and the same holds for the caller.
+func coupledFields(p *core.Program, callee *ssa.Function, pi, si, ni, depth int) (bool, string) {
+	if depth >= 4 {
+		return false, "struct handed on too many times"
+	}
+	sites := 0
+	for _, g := range p.ModFns {
+		if g.Synthetic != "" {
+			continue
+		}
+		for _, ci := range core.Calls(g) {
+			if ci.Common().StaticCallee() != callee {
+				continue
+			}
+			a := core.ArgForParam(ci, pi)
+			if a == nil {
+				continue
+			}
+			sites++
+			if prm := wholeParam(a); prm != nil && prm.Parent() == g {
+				if ok, why := coupledFields(p, g, core.ParamIndex(prm), si, ni, depth+1); !ok {
+					return false, why
+				}
+				continue
+			}
+			sv, nv := fieldValueOfArg(a, si), fieldValueOfArg(a, ni)
+			if sv == nil || nv == nil {
+				return false, "the struct carrying segment and child is not filled in at call site " + p.Pos(ci.Pos())
+			}
+			if ok, _ := coupledAt(p, g, sv, nv, depth+1, ci); !ok {
+				return false, "segment and child bundled at call site " + p.Pos(ci.Pos()) + " do not originate together"
+			}
+		}
+	}
+	if sites == 0 {
+		return false, "no call site fills in the struct carrying segment and child"
+	}
+	return true, fmt.Sprintf("fields of the struct parameter coupled at all %d call sites", sites)
+}
+
+// wholeParam: a is a struct parameter of its function passed on as a whole (possibly through the variable it was
+// spilled to).
+func wholeParam(a ssa.Value) *ssa.Parameter {
+	a = core.Strip(a)
+	if prm, ok := a.(*ssa.Parameter); ok {
+		return prm
+	}
+	if u, ok := a.(*ssa.UnOp); ok && u.Op == token.MUL {
+		if al, ok := u.X.(*ssa.Alloc); ok {
+			var only *ssa.Parameter
+			n, other := 0, false
+			for _, ref := range *al.Referrers() {
+				switch x := ref.(type) {
+				case *ssa.Store:
+					if x.Addr == ssa.Value(al) {
+						n++
+						only, _ = x.Val.(*ssa.Parameter)
+					}
+				case *ssa.FieldAddr:
+					if x.Referrers() != nil {
+						for _, r2 := range *x.Referrers() {
+							if st, ok := r2.(*ssa.Store); ok && st.Addr == ssa.Value(x) {
+								other = true // a field is overwritten: no longer the parameter as passed
+							}
+						}
+					}
+				}
+			}
+			if n == 1 && !other {
+				return only
+			}
+		}
+	}
+	return nil
+}
+
+type paramField struct {
+	prm *ssa.Parameter
+	idx int
+}
+
+// fieldsOfParamIn: the struct-parameter fields of the wanted type that v is, or derives from.
+func fieldsOfParamIn(v ssa.Value, want func(types.Type) bool) []paramField {
+	var out []paramField
+	add := func(w ssa.Value) {
+		if prm, idx := fieldOfParam(w); prm != nil && want(w.Type()) {
+			for _, o := range out {
+				if o.prm == prm && o.idx == idx {
+					return
+				}
+			}
+			out = append(out, paramField{prm, idx})
+		}
+	}
+	add(v)
+	for w := range core.BackSlice(v, core.SliceOpts{Stores: true, ThroughCallsIf: func(cl *ssa.Call) bool {
+		if cl.Call.IsInvoke() {
+			n := cl.Call.Method.Name()
+			return n != "Next" && !strings.HasPrefix(n, "Lookup")
+		}
+		return true
+	}}) {
+		add(w)
+	}
+	sort.Slice(out, func(i, j int) bool {
+		if out[i].prm != out[j].prm {
+			return out[i].prm.Pos() < out[j].prm.Pos()
+		}
+		return out[i].idx < out[j].idx
+	})
+	return out
+}
+
+// fieldOfParam: v reads field idx of a struct (or pointer-to-struct) parameter of its function - directly, or through
+// the local variable the parameter was spilled to.
+func fieldOfParam(v ssa.Value) (*ssa.Parameter, int) {
+	asParam := func(x ssa.Value) *ssa.Parameter {
+		x = core.Strip(x)
+		if prm, ok := x.(*ssa.Parameter); ok {
+			return prm
+		}
+		if al, ok := x.(*ssa.Alloc); ok {
+			var only *ssa.Parameter
+			n := 0
+			for _, ref := range *al.Referrers() {
+				if st, ok := ref.(*ssa.Store); ok && st.Addr == ssa.Value(al) {
+					n++
+					only, _ = st.Val.(*ssa.Parameter)
+				}
+			}
+			if n == 1 {
+				return only
+			}
+		}
+		if u, ok := x.(*ssa.UnOp); ok && u.Op == token.MUL {
+			if al, ok := u.X.(*ssa.Alloc); ok {
+				var only *ssa.Parameter
+				n := 0
+				for _, ref := range *al.Referrers() {
+					if st, ok := ref.(*ssa.Store); ok && st.Addr == ssa.Value(al) {
+						n++
+						only, _ = st.Val.(*ssa.Parameter)
+					}
+				}
+				if n == 1 {
+					return only
+				}
+			}
+		}
+		return nil
+	}
+	switch x := core.Strip(v).(type) {
+	case *ssa.Field:
+		if prm := asParam(x.X); prm != nil {
+			return prm, x.Field
+		}
+	case *ssa.UnOp:
+		if x.Op == token.MUL {
+			if fa, ok := x.X.(*ssa.FieldAddr); ok {
+				if prm := asParam(fa.X); prm != nil {
+					return prm, fa.Field
+				}
+			}
+		}
+	}
+	return nil, -1
+}
+
+// fieldValueOfArg: the value the caller stored into field idx of the struct it passes as a (the struct value loaded
+// from a local composite literal, or a pointer to one); nil unless exactly one store is found.
+func fieldValueOfArg(a ssa.Value, idx int) ssa.Value {
+	a = core.Strip(a)
+	if u, ok := a.(*ssa.UnOp); ok && u.Op == token.MUL {
+		a = u.X
+	}
+	al, ok := a.(*ssa.Alloc)
+	if !ok {
+		return nil
+	}
+	var val ssa.Value
+	n := 0
+	for _, ref := range *al.Referrers() {
+		fa, ok := ref.(*ssa.FieldAddr)
+		if !ok || fa.Field != idx || fa.Referrers() == nil {
+			continue
+		}
+		for _, r2 := range *fa.Referrers() {
+			if st, ok := r2.(*ssa.Store); ok && st.Addr == ssa.Value(fa) {
+				val = st.Val
+				n++
+			}
+		}
+	}
+	if n != 1 {
+		return nil
+	}
+	return val
 }
 
 func checkCoupling(c *core.Ctx) {
@@ -542,6 +762,12 @@ func sameOrigin(a, b ssa.Value) bool {
 	}
 	for x := range ap {
 		if bp[x] && isPathSegment(x.Type()) {
+			return true
+		}
+	}
+	// the same field of the same struct parameter
+	if pa, ia := fieldOfParam(a); pa != nil {
+		if pb, ib := fieldOfParam(b); pb == pa && ia == ib {
 			return true
 		}
 	}
